@@ -198,7 +198,7 @@ Definition with_str (r : list Z) (f : str -> list Z -> list Z) : list Z :=
     10 utf8_encode s     11 utf8_dec bs       12 utf8_dec_replace bs
     20 quote s           21 quote_plus s      22 unquote s            23 unquote_to_bytes s (ASCII)
     24 urlencode pairs   25 urlencode_q pairs 26 quote(s, safe='/')                           *)
-Definition corr_C18 (inp : list Z) : list Z :=
+Definition corr_C18_base (inp : list Z) : list Z :=
   match inp with
   | 0%Z :: r => with_str r (fun qs _ => enc_qres enc_fdict (query qs))
   | 1%Z :: r => with_str r (fun b _ => enc_qres enc_fdict (forms_urlencoded b))
